@@ -682,7 +682,38 @@ def expand_validate_fields(e):
     return expanded
 
 
+def extract_getters(e, vac=False):
+    """kind `getters`: every method `fn <name>(&self) -> <T> {..}` of the file whose name is a field of struct `struct` is
+    extracted verbatim (body included) and given the contract `ensures r == self.<name>` - a getter returns the field it is
+    named after. The field list is read from the struct definition in the file; every field must have its getter
+    (otherwise: lost anchor)."""
+    p = REPO + "/" + e["file"]
+    if not os.path.exists(p):
+        raise ExtractError(f"lost anchor: {e['file']} missing")
+    t = open(p).read()
+    anchor = "pub struct " + e["struct"] + " {"
+    if t.count(anchor) != 1:
+        raise ExtractError(f"lost anchor: `{anchor}` in {e['file']}")
+    s0 = t.index(anchor)
+    sbody = t[s0 + len(anchor) - 1:match_brace(t, s0 + len(anchor) - 1)]
+    fields = re.findall(r"^\s*(?:pub(?:\([a-z]+\))?\s+)?([a-z_][a-z_0-9]*)\s*:", sbody, re.M)
+    out = []
+    for f in fields:
+        ms = list(re.finditer(r"\bfn\s+" + re.escape(f) + r"\s*\(\s*&self\s*\)\s*->\s*([A-Za-z_0-9]+)\s*\{", t))
+        if len(ms) != 1:
+            raise ExtractError(f"lost anchor: getter `{f}` of {e['struct']} found {len(ms)} times in {e['file']}")
+        m = ms[0]
+        end = match_brace(t, m.end() - 1)
+        body = rewrite(t[m.end() - 1:end])
+        if vac:
+            body = "{ assert(false); // @VACUITY " + e["key"] + ":" + f + "\n" + body[1:]
+        out.append(f"    fn {f}(&self) -> (r: {m.group(1)})\n        ensures r == self.{f}, // [C15] the getter returns the field it is named after\n    " + body)
+    return "\n".join(out)
+
+
 def extract_item(e, vac=False):
+    if e.get("kind") == "getters":
+        return extract_getters(e, vac)
     if e.get("kind") == "macro_validate_fields":
         item = rewrite(expand_validate_fields(e))
         item = msg_rule(item)
